@@ -76,15 +76,15 @@ Lemma wf_sandwich a : wf p p (sw a).
 Proof. apply wf_mmul. Qed.
 
 (* ---------- the whitening matrices ---------- *)
-Variables (eps : F) (lam d dinv : vec).
-Hypothesis Hkeep : forall i, (i < p)%nat -> whiten_keep K (vget lam i) eps = true.
+Variables (thr : F) (lam d dinv : vec).
+Hypothesis Hkeep : forall i, (i < p)%nat -> whiten_keep K (vget lam i) thr = true.
 Hypothesis Hd : real_vec K p d.
 Hypothesis Hinv : forall i, (i < p)%nat -> vget d i * vget dinv i = 1.
 
-Notation T := (whiten_T K p eps V lam d).
-Notation Tinv := (whiten_Tinv K p eps V lam dinv).
+Notation T := (whiten_T K p thr V lam d).
+Notation Tinv := (whiten_Tinv K p thr V lam dinv).
 
-Lemma mask_all a : sw (whiten_mask K p eps lam a) = sw a.
+Lemma mask_all a : sw (whiten_mask K p thr lam a) = sw a.
 Proof. apply sandwich_ext. intros i Hi. unfold whiten_mask. rewrite vget_vtab by exact Hi.
   rewrite Hkeep by exact Hi. reflexivity. Qed.
 
@@ -146,9 +146,9 @@ Proof. rewrite !whiten_cov_scale. unfold whiten_transform.
   rewrite <- (mmul_assoc K FL p p p p). reflexivity. Qed.
 
 Section Fit.
-Variables (n p : nat) (X V : mat) (alpha eps : F) (lam d dinv : vec).
+Variables (n p : nat) (X V : mat) (alpha eps thr : F) (lam d dinv : vec).
 Hypothesis EIG : eig_ok K p (whiten_cov K n p X) V lam.
-Hypothesis Hkeep : forall i, (i < p)%nat -> whiten_keep K (vget lam i) eps = true.
+Hypothesis Hkeep : forall i, (i < p)%nat -> whiten_keep K (vget lam i) thr = true.
 Hypothesis Hd : real_vec K p d.
 Hypothesis Hinv : forall i, (i < p)%nat -> vget d i * vget dinv i = 1.
 
@@ -157,13 +157,13 @@ Let HVV : mmul p p p (mH p p V) V = mI p. Proof. apply EIG. Qed.
 Let HVVt : mmul p p p V (mH p p V) = mI p. Proof. apply EIG. Qed.
 Let HC : whiten_cov K n p X = sandwich K p V lam. Proof. apply EIG. Qed.
 
-Notation T := (whiten_T K p eps V lam d).
-Notation Tinv := (whiten_Tinv K p eps V lam dinv).
-Notation w := (whiten_fit K p alpha eps V lam d dinv).
+Notation T := (whiten_T K p thr V lam d).
+Notation Tinv := (whiten_Tinv K p thr V lam dinv).
+Notation w := (whiten_fit K p alpha eps thr V lam d dinv).
 Notation eigs := (whitened_eigs K p lam d).
 
 Lemma whitened_cov : whiten_cov K n p (whiten_transform K n p T X) = sandwich K p V eigs.
-Proof. rewrite whiten_cov_transform. apply (whitened_gram p V HV HVV eps lam d Hkeep Hd). exact HC. Qed.
+Proof. rewrite whiten_cov_transform. apply (whitened_gram p V HV HVV thr lam d Hkeep Hd). exact HC. Qed.
 
 (* alpha = 0 at full rank: d_i^2 lam_i = 1 *)
 Lemma whitened_cov_identity : (forall i, (i < p)%nat -> vget d i * vget d i * vget lam i = 1) ->
@@ -186,25 +186,25 @@ Proof. intros Hab H i Hi. unfold whitened_eigs. rewrite vget_vtab by exact Hi. a
 (* the fitted object, both branches of the alpha = 1 test *)
 Lemma fit_T_hermitian : w_identity w = false -> mH p p (w_T w) = w_T w.
 Proof. unfold whiten_fit. destruct (whiten_is_identity K alpha eps); cbn [w_identity w_T]; [discriminate|].
-  intros _. apply (T_hermitian p V HV eps lam d Hkeep Hd). Qed.
+  intros _. apply (T_hermitian p V HV thr lam d Hkeep Hd). Qed.
 
 Lemma fit_T_Tinv : w_identity w = false ->
   mmul p p p (w_T w) (w_Tinv w) = mI p /\ mmul p p p (w_Tinv w) (w_T w) = mI p.
 Proof. unfold whiten_fit. destruct (whiten_is_identity K alpha eps); cbn [w_identity w_T w_Tinv]; [discriminate|].
-  intros _. split; [apply (T_Tinv p V HV HVV HVVt eps lam d dinv Hkeep Hinv)|apply (Tinv_T p V HV HVV HVVt eps lam d dinv Hkeep Hinv)]. Qed.
+  intros _. split; [apply (T_Tinv p V HV HVV HVVt thr lam d dinv Hkeep Hinv)|apply (Tinv_T p V HV HVV HVVt thr lam d dinv Hkeep Hinv)]. Qed.
 
 Lemma fit_unwhiten m Y : wf m p Y -> w_inverse_data K m p w (w_transform K m p w Y) = Y.
 Proof. intros HY. unfold w_inverse_data, w_transform, whiten_fit.
   destruct (whiten_is_identity K alpha eps); cbn [w_identity w_T w_Tinv]; [reflexivity|].
-  apply (unwhiten p V HV HVV HVVt eps lam d dinv Hkeep Hinv); exact HY. Qed.
+  apply (unwhiten p V HV HVV HVVt thr lam d dinv Hkeep Hinv); exact HY. Qed.
 
 Lemma fit_components_roundtrip m P : wf p m P ->
   w_inverse_components K p m w (w_transform_components K p m w P) = P /\
   w_transform_components K p m w (w_inverse_components K p m w P) = P.
 Proof. intros HP. unfold w_inverse_components, w_transform_components, whiten_fit.
   destruct (whiten_is_identity K alpha eps); cbn [w_identity w_T w_Tinv]; [split; reflexivity|].
-  split; [apply (components_roundtrip p V HV HVV HVVt eps lam d dinv Hkeep Hinv)
-         |apply (components_roundtrip' p V HV HVV HVVt eps lam d dinv Hkeep Hinv)]; exact HP. Qed.
+  split; [apply (components_roundtrip p V HV HVV HVVt thr lam d dinv Hkeep Hinv)
+         |apply (components_roundtrip' p V HV HVV HVVt thr lam d dinv Hkeep Hinv)]; exact HP. Qed.
 
 Lemma fit_whitened_cov :
   whiten_cov K n p (w_transform K n p w X) =
